@@ -324,6 +324,45 @@ mut("C08", "record-key-go-quote", ("types/record.go", '''		sb.Write(k.MarshalCed
 '''))
 mut("C08", "double-quote-unescaped-after-first", ("internal/rust/rust.go", "\t\tb = append(b, escapeRune(r, first)...)", "\t\tif r == '\"' && !first {\n\t\t\tb = append(b, '\"')\n\t\t\tcontinue\n\t\t}\n\t\tb = append(b, escapeRune(r, first)...)"))
 
+# ---- C09
+mut("C09", "sub-operands-swapped", ("internal/json/json_marshal.go", '''	case ast.NodeTypeSub:
+		binaryToJSON(&n.Subtract, t.BinaryNode)''', '''	case ast.NodeTypeSub:
+		binaryToJSON(&n.Subtract, ast.BinaryNode{Left: t.Right, Right: t.Left})'''))
+mut("C09", "is-in-dropped", ("internal/json/json_unmarshal.go", '''	if j.In != nil {
+		right, err := j.In.ToNode()
+		if err != nil {
+			return ast.Node{}, fmt.Errorf("error in entity: %w", err)
+		}
+		return left.IsIn(types.EntityType(j.EntityType), right), nil
+	}''', '''	if j.In != nil {
+		if _, err := j.In.ToNode(); err != nil {
+			return ast.Node{}, fmt.Errorf("error in entity: %w", err)
+		}
+	}'''))
+mut("C09", "unless-after-when-becomes-when", ("internal/json/json_marshal.go", '''		if c.Condition == ast.ConditionUnless {
+			cond.Kind = "unless"
+		}''', '''		if c.Condition == ast.ConditionUnless && len(j.Conditions) != 1 {
+			cond.Kind = "unless"
+		}'''))
+mut("C09", "pattern-literal-after-wildcard-lost", ("types/pattern.go", '''		if !comp.Wildcard || comp.Literal != "" {
+			if comp.Wildcard {
+				buf.WriteString(", ")
+			}''', '''		if !comp.Wildcard {'''))
+mut("C09", "getTag-as-hasTag", ("internal/json/json_marshal.go", '''	case ast.NodeTypeGetTag:
+		binaryToJSON(&n.GetTag, t.BinaryNode)''', '''	case ast.NodeTypeGetTag:
+		binaryToJSON(&n.HasTag, t.BinaryNode)'''))
+mut("C09", "scope-is-in-entity-type-lost", ("internal/json/json_unmarshal.go", '''		return ast.Scope{}.IsIn(types.EntityType(s.EntityType), types.EntityUID(s.In.Entity)), nil''', '''		return ast.Scope{}.In(types.EntityUID(s.In.Entity)), nil'''))
+mut("C09", "policyset-id-trimmed", ("policy_set.go", '''		p.policies[PolicyID(k)] = newPolicy((*ast.Policy)(v))''', '''		p.policies[PolicyID(strings.TrimSpace(k))] = newPolicy((*ast.Policy)(v))'''), ("policy_set.go", '''	"slices"
+''', '''	"slices"
+	"strings"
+'''))
+mut("C09", "decimal-value-as-float-string", ("internal/json/json_marshal.go", '''	str := src.String()
+	val := valueJSON{v: types.String(str)}''', '''	str := src.String()
+	if d, ok := src.(types.Decimal); ok {
+		str = fmt.Sprintf("%.4f", d.Float())
+	}
+	val := valueJSON{v: types.String(str)}'''))
+
 # ---- C20
 mut("C20", "unmarshal-merges", ("policy_set.go", """	*p = PolicySet{
 		policies: make(PolicyMap, len(jsonPolicySet.StaticPolicies)),
